@@ -263,6 +263,8 @@ def run(ctx):
     ctx.guarded('C06-D1', 'obs.py:covariance', cov_function, ctx, obs)
     ctx.guarded('C06-D2', 'obs.py:_covariance_element', cov_element, ctx, obs)
     ctx.guarded('C06-D3', 'obs.py@helpers', helpers, ctx, obs)
+    from . import C04
+    ctx.guarded('C06-D2', 'obs.py:_intersection_idx', C04.merge_idx_rules, ctx, obs, 'C06-D2', (('_intersection_idx', 'intersection'),))
     ctx.floor('C06 obligations', len(ctx.obs), 18)
 
 
@@ -279,5 +281,6 @@ SELFTEST = [
     ('smooth-no-renorm', 'pyerrors/obs.py', "    vals /= np.mean(vals)\n", "", 'C06-D3'),
     ('errband-two-gradients', 'pyerrors/fits.py', "err.append(np.sqrt(deriv[i] @ cov @ deriv[i]))", "err.append(np.sqrt(deriv[i] @ cov @ deriv[0]))", 'C06-D3'),
     ('whitening-errors', 'pyerrors/fits.py', "            inverrdiag = np.diag(1 / np.asarray(dy_f))\n            chol_inv", "            inverrdiag = np.diag(1 / np.asarray(dy_f) ** 2)\n            chol_inv", 'C06-D3'),
+    ('intersection-fast-path-exclusive', 'pyerrors/obs.py', "    idinter = sorted(set.intersection(*[set(o) for o in idl]))\n", "    if all(type(o) is range for o in idl) and len(set(o.step for o in idl)) == 1:\n        first = max(o[0] for o in idl)\n        last = min(o[-1] for o in idl)\n        if first <= last and all((first - o[0]) % idl[0].step == 0 for o in idl):\n            return range(first, last, idl[0].step)\n    idinter = sorted(set.intersection(*[set(o) for o in idl]))\n", 'C06-D2'),
     ('benign-matmul-spelling', 'pyerrors/obs.py', "cov = np.diag(errors) @ corr @ np.diag(errors)", "cov = np.dot(np.diag(errors), np.dot(corr, np.diag(errors)))", 'BENIGN'),
 ]
